@@ -186,6 +186,12 @@ func compare(cs Case, before, after *sqlm.Dump, changed []string, haveChangeSet 
 			if b == nil || b.Gen != nil || sqlm.Affinity(c.Type) != sqlm.Affinity(b.Type) {
 				continue
 			}
+			// an ANY column stores values untouched in a STRICT table and has NUMERIC affinity in an
+			// ordinary one: when the user switches STRICT on or off, SQLite itself converts
+			// numeric-looking text — no demand
+			if c.Type == "ANY" && ta.Strict != tb.Strict {
+				continue
+			}
 			surv = append(surv, c.Name)
 			if c.Null && !b.Null && b.Default != nil {
 				subst[c.Name] = storedDefault(b)
@@ -540,7 +546,7 @@ func (m *monitor) evaluate(ctx context.Context, dir string, cs Case) Outcome {
 		return o
 	}
 	safe, _ := sqlm.DataSafe(cs.A, cs.B)
-	if cs.Flex == "all" || cs.Src == "new-prefix" {
+	if cs.Flex == "all" || cs.Flex == "nullkey" || cs.Src == "new-prefix" || cs.Src == "wr-violating" {
 		// mismatching storage classes may legitimately be refused (STRICT); a table called new_<t>
 		// makes the unpatched planner's temporary name collide: refusal is the expected outcome
 		safe = false
@@ -790,6 +796,8 @@ func workload(c *rt.Ctx) []Case {
 	// generated -> ordinary conversions; drop k of n columns (with and without simultaneous adds);
 	// column names that read as expressions / keywords
 	fixed = append(append(append(fixed, genToPlainCases(pool, modes)...), dropKCases(modes)...), exoticNameCases(modes)...)
+	// conversion to WITHOUT ROWID of tables holding rows the new definition rejects
+	fixed = append(fixed, wrViolatingCases(pool, modes)...)
 	for _, cs := range fixed {
 		add(cs)
 	}
@@ -1057,6 +1065,10 @@ func flexSchema() sqlm.Schema {
 		{Name: "flexm", Cols: []sqlm.Col{{Name: "id", Type: "integer"}, n("n", "int"), n("t", "text"), n("r", "real"), n("b", "blob"), n("m", "int")}, PK: []string{"id"},
 			Idx: []sqlm.Idx{{Name: "flexm_m", Parts: []sqlm.Part{{Col: "m"}}}}},
 		{Name: "flexa", Cols: []sqlm.Col{{Name: "id", Type: "integer"}, n("a", "ANY"), n("t", "text"), n("a2", "ANY")}, PK: []string{"id"}},
+		// flexs is and stays STRICT: its ANY columns hold numeric-looking TEXT ('0<n>.50'), reals, blobs
+		// and numbers untouched; every rebuild kind must keep them so
+		{Name: "flexs", Cols: []sqlm.Col{{Name: "id", Type: "integer"}, n("a", "ANY"), n("t", "text"), n("k", "integer"), n("a2", "ANY")}, PK: []string{"id"}, Strict: true,
+			Idx: []sqlm.Idx{{Name: "flexs_k", Parts: []sqlm.Part{{Col: "k"}}}}},
 	}}
 }
 
@@ -1070,12 +1082,15 @@ func flexCases(pool []sqlm.PoolEntry, modes []string, quick bool) []Case {
 	n := 0
 	for i, e := range sqlm.Neighbourhood(fs) {
 		important := e.Kind == "table.strict.toggle" || e.Kind == "table.without-rowid.toggle" || e.Kind == "check.add.named" || e.Kind == "col.drop" || e.Kind == "col.add.null"
-		if quick && !important && i%3 != 0 {
+		if quick && !important && i%3 != 0 && e.Table != "flexs" {
 			continue
 		}
 		for _, flex := range []string{"all", "any"} {
-			if flex == "any" && e.Table != "flexa" {
+			if flex == "any" && e.Table != "flexa" && e.Table != "flexs" {
 				continue
+			}
+			if flex == "any" && e.Table == "flexs" {
+				important = true
 			}
 			out = append(out, Case{Pair: sqlm.Pair{A: fs, B: e.Apply(fs), Mode: modes[n%len(modes)]}, Flex: flex, Name: fmt.Sprintf("flex-%s:%s", flex, e), Src: "flex", Edits: []string{e.Kind}})
 			n++
@@ -1214,5 +1229,72 @@ func exoticNameCases(modes []string) []Case {
 	addCase("add index in place", "idx.add.plain", func(t *sqlm.Table) {
 		t.Idx = append(t.Idx, sqlm.Idx{Name: t.Name + "_region", Parts: []sqlm.Part{{Col: "region"}}})
 	})
+	return out
+}
+
+// wrViolatingCases: a populated rowid table becomes WITHOUT ROWID while at least one of its rows does
+// not satisfy the new definition — a NULL in a (nullable) key column, a NULL in a column that turns
+// NOT NULL without default in the same change, a row rejected by a CHECK added in the same change.
+// Demand: the apply is refused and everything is unchanged, or every row is kept.
+func wrViolatingCases(pool []sqlm.PoolEntry, modes []string) []Case {
+	var out []Case
+	k := 0
+	n := func(name, typ string) sqlm.Col { return sqlm.Col{Name: name, Type: typ, Null: true} }
+	// (1) NULL keys
+	for v, t := range []sqlm.Table{
+		{Name: "wk", Cols: []sqlm.Col{n("code", "text"), n("v", "text")}, PK: []string{"code"}},
+		{Name: "wk", Cols: []sqlm.Col{{Name: "a", Type: "integer"}, n("b", "text"), n("v", "real")}, PK: []string{"a", "b"}},
+		{Name: "wk", Cols: []sqlm.Col{n("b", "text"), {Name: "a", Type: "integer"}, n("v", "real")}, PK: []string{"a", "b"},
+			Idx: []sqlm.Idx{{Name: "wk_v", Parts: []sqlm.Part{{Col: "v"}}}}},
+	} {
+		b := t.Clone()
+		b.WithoutRowID = true
+		for _, mode := range []string{"atlas", modes[1+k%(len(modes)-1)]} {
+			out = append(out, Case{Pair: sqlm.Pair{A: sqlm.Schema{Tables: []sqlm.Table{t}}, B: sqlm.Schema{Tables: []sqlm.Table{b}}, Mode: mode}, Flex: "nullkey",
+				Name: fmt.Sprintf("wr-violating:null-key%d", v), Src: "wr-violating", Edits: []string{"table.without-rowid.toggle"}})
+			k++
+		}
+	}
+	// (2) pool tables: WITHOUT ROWID + NOT NULL without default on a column holding NULLs; + a CHECK the rows violate
+	for _, pe := range pool {
+		if pe.Name == "all" {
+			continue
+		}
+		for ti, t := range pe.S.Tables {
+			if t.WithoutRowID || len(t.PK) == 0 {
+				continue
+			}
+			b := pe.S.Clone()
+			b.Tables[ti].WithoutRowID = true
+			for ci := range b.Tables[ti].Cols {
+				b.Tables[ti].Cols[ci].AutoInc = false
+			}
+			if b.Validate() != nil {
+				continue
+			}
+			// NOT NULL, no default, on the first free nullable stored column
+			for _, e := range sqlm.Neighbourhood(b) {
+				if e.Table == t.Name && e.Kind == "col.null.to-notnull-nodefault" {
+					out = append(out, Case{Pair: sqlm.Pair{A: pe.S, B: e.Apply(b), Mode: modes[k%len(modes)]}, Name: fmt.Sprintf("wr-violating:%s/%s +not-null %s", pe.Name, t.Name, e.Desc),
+						Src: "wr-violating", Edits: []string{"table.without-rowid.toggle", e.Kind}})
+					k++
+					break
+				}
+			}
+			// a CHECK that only the NULL rows of a nullable column satisfy... and one no row satisfies
+			for _, c := range t.Cols {
+				if c.Gen == nil && c.Null && len(t.ColUses(c.Name)) == 0 && len(pe.S.ReferencedBy(t.Name, c.Name, true)) == 0 {
+					bb := b.Clone()
+					bb.Tables[ti].Checks = append(bb.Tables[ti].Checks, sqlm.Check{Name: t.Name + "_only_null", Expr: c.Name + " IS NULL", Refs: []string{c.Name}})
+					if bb.Validate() == nil {
+						out = append(out, Case{Pair: sqlm.Pair{A: pe.S, B: bb, Mode: modes[k%len(modes)]}, Name: fmt.Sprintf("wr-violating:%s/%s +check %s IS NULL", pe.Name, t.Name, c.Name),
+							Src: "wr-violating", Edits: []string{"table.without-rowid.toggle", "check.add.named"}})
+						k++
+					}
+					break
+				}
+			}
+		}
+	}
 	return out
 }
